@@ -385,6 +385,127 @@ class C07(Spec):
         return [history_standin(root, tier)]
 
 
+# assumed contracts of the dependencies behind the built-in format functions (DESIGN.md section 5):
+# function -> (the only external callables it may consult, exceptions those may raise on a str argument)
+FORMAT_DEPS = {
+    "is_email": (set(), set()),
+    "is_ipv4": ({"ipaddress.IPv4Address"}, {"AddressValueError"}),
+    "is_ipv6": ({"ipaddress.IPv6Address", "getattr"}, {"AddressValueError"}),
+    "is_idn_host_name": ({"idna.encode"}, {"IDNAError", "UnicodeError"}),
+    "is_regex": ({"re.compile"}, {"error", "OverflowError"}),
+    "is_date": ({"_RE_DATE.fullmatch", "_is_date", "bool"}, {"ValueError"}),
+    "is_draft3_time": ({"datetime.datetime.strptime"}, {"ValueError"}),
+}
+
+
+def format_dependency_obligations(repo, registry):
+    """T: each registered built-in function consults only the dependency its assumed contract is
+    written for, and lists every exception that dependency may raise (so check raises only FormatError)."""
+    import ast as _ast
+    from pyvc import frames
+    recs = []
+    funcs = {}
+    for cname, chk in registry["checkers"].items():
+        for fmt, e in chk.items():
+            funcs.setdefault(e["func"], set()).update(e["raises"])
+            funcs.setdefault(("reg", e["func"]), set()).add((cname, fmt))
+    for fname in sorted(k for k in funcs if isinstance(k, str)):
+        key = "_format:%s" % fname
+        if fname not in FORMAT_DEPS or key not in repo.units:
+            recs.append({"name": "_format:%s/T/dependency-contract" % fname, "kind": "T", "status": "failed", "solver": "tables",
+                         "note": "no assumed dependency contract for registered function %s" % fname, "fmt_search": True})
+            continue
+        allowed, may_raise = FORMAT_DEPS[fname]
+        calls = set()
+        for n in frames.own_nodes(repo.units[key].node):
+            if isinstance(n, _ast.Call):
+                calls.add(_ast.unparse(n.func))
+        calls -= {"isinstance"}
+        ok_calls = calls <= allowed
+        listed = funcs[fname]
+        listed_norm = {x.split(".")[-1] for x in listed}
+        ok_raises = may_raise <= listed_norm or (may_raise <= {"error", "OverflowError"} and {"error", "OverflowError"} <= listed_norm)
+        recs.append({"name": "_format:%s/T/dependency-contract" % fname, "kind": "T", "status": "discharged" if ok_calls else "failed", "solver": "tables",
+                     "note": "%s consults only %s (found %s)" % (fname, sorted(allowed), sorted(calls)), "fmt_search": True})
+        recs.append({"name": "_format:%s/S/raises-listed" % fname, "kind": "S", "status": "discharged" if ok_raises else "failed", "solver": "tables",
+                     "note": "every exception the dependency may raise on a string (%s) is listed in raises=%s" % (sorted(may_raise), sorted(listed)), "fmt_search": True})
+    # module-level aliases used above
+    tree = repo.trees["_format"]
+    alias_src = {}
+    for n in _ast.walk(tree):
+        if isinstance(n, _ast.Assign) and len(n.targets) == 1 and isinstance(n.targets[0], _ast.Name) and n.targets[0].id in ("_is_date", "_RE_DATE"):
+            alias_src.setdefault(n.targets[0].id, []).append(n.value)
+    srcs = [_ast.unparse(v) for v in alias_src.get("_is_date", [])]
+    ok = srcs == ["datetime.date.fromisoformat"]
+    recs.append({"name": "_format:_is_date/T/alias", "kind": "T", "status": "discharged" if ok else "failed", "solver": "tables",
+                 "note": "_is_date is %s (python >= 3.7 branch)" % srcs, "fmt_search": True})
+    vals = alias_src.get("_RE_DATE", [])
+    ok = (len(vals) == 1 and isinstance(vals[0], _ast.Call) and _ast.unparse(vals[0].func) == "re.compile" and len(vals[0].args) == 2
+          and isinstance(vals[0].args[0], _ast.Constant) and vals[0].args[0].value == "^\\d{4}-\\d{2}-\\d{2}$"
+          and _ast.unparse(vals[0].args[1]) == "re.ASCII")
+    recs.append({"name": "_format:_RE_DATE/T/alias", "kind": "T", "status": "discharged" if ok else "failed", "solver": "tables",
+                 "note": "_RE_DATE is the ASCII pattern ^\\d{4}-\\d{2}-\\d{2}$", "fmt_search": True})
+    return recs
+
+
+class C12(Spec):
+    pid = "C12"
+    level = "proof"
+    design_ref = "DESIGN.md section 8 C12"
+    trusted = ["a custom checker function is an abstract callable with three outcomes: returns a value, raises an instance of the registered `raises`, raises anything else",
+               "the registry (which function under which name in which checker object) is read by reflection from the imported module (pyvc/rt_fmt.py)"]
+    assumptions = ["`except raises` catches exactly the instances of the registered exception type(s) (Python semantics)"]
+    explanation = "The format keyword function is proved to yield nothing without a checker and, with one, exactly one error carrying the FormatError's cause iff check raises FormatError; FormatChecker.check is proved against its four-case contract (unknown name, truthy, falsy, listed exception, unlisted exception propagates), conforms against check; every registered built-in function is proved to return True for any non-string instance before consulting anything."
+
+    def tasks(self, root, tier):
+        from contracts import tasks_format
+        return tasks_format.format_tasks(root, _tmo(tier))
+
+    def select(self, ob, r):
+        return True
+
+    def failure_kinds(self):
+        return ("F", "S")
+
+    def standins(self, root, tier):
+        from pyvc import driver
+        r = driver.rt_call("pyvc.rt_fmt", {"cmd": "custom", "root": root}, root, timeout=3000)
+        return [{"name": "custom-checkers", "scope": "14 checker behaviours (12 return values, listed and unlisted exception) x 11 instances of every JSON type x 4 drafts, through conforms and validation with/without checker and an unknown format name",
+                 "cases": r["tried"], "failures": r["failures"], "replay_kind": "fmt", "label": "bounded (not counted as proof)"}]
+
+
+class C13(Spec):
+    pid = "C13"
+    level = "other"
+    design_ref = "DESIGN.md section 8 C13"
+    trusted = ["ASSUMED contracts of the dependencies (ipaddress.IPv4Address / IPv6Address raise only AddressValueError on a str; date.fromisoformat only ValueError; re.compile only re.error or OverflowError - RecursionError is outside the model; idna.encode only IDNAError / UnicodeError; strptime only ValueError)",
+               "the grammars themselves (what the dependencies accept) are NOT proved: they are compared with independently written grammars by the bounded near-miss search, labelled bounded"]
+    assumptions = ["date: year 0000 is not a calendar year of the library (outside the claim)", "idn-hostname and draft-3 time: never-raises half only",
+                   "formats whose optional libraries are absent are not registered and out of scope"]
+    explanation = "The repository's part is a thin wrapper: proved are (with C12's check contract) that each registered function consults only the dependency its assumed contract covers, lists every exception that dependency may raise, and guards non-strings; hence check raises nothing but FormatError. That the dependencies accept exactly the stated grammars is checked by a bounded near-miss conformance search against independent grammars (all single-character edits of valid and invalid seeds over each format's critical alphabet) - a bounded stand-in, not a proof."
+
+    def tasks(self, root, tier):
+        from contracts import tasks_format
+        return [t for t in tasks_format.format_tasks(root, _tmo(tier)) if t.which in ("check", "conforms", "guards")]
+
+    def select(self, ob, r):
+        return True
+
+    def failure_kinds(self):
+        return ("F", "S")
+
+    def table_obligations(self, repo, tabs):
+        from pyvc import driver
+        reg = driver.rt_call("pyvc.rt_fmt", {"cmd": "registry", "root": repo.root}, repo.root)
+        return format_dependency_obligations(repo, reg)
+
+    def standins(self, root, tier):
+        from pyvc import driver
+        r = driver.rt_call("pyvc.rt_fmt", {"cmd": "search", "root": root, "quick": tier != "thorough"}, root, timeout=3000)
+        return [{"name": "grammar-near-misses", "scope": "every single-character insertion, deletion and substitution (over each format's critical alphabet) of 15-23 valid and invalid seeds per format, plus NUL / surrogate / non-ASCII-digit / very long strings, for every registered format of the class-level checker%s; ipv4, ipv6, date, regex, email against independent grammars, all formats for never-raises" % (" and the four draft checkers" if tier == "thorough" else " (draft checkers: seeds only)"),
+                 "cases": r["tried"], "failures": r["failures"], "replay_kind": "fmt", "label": "bounded (about the dependencies; not counted as proof)"}]
+
+
 class C14(Spec):
     pid = "C14"
     level = "proof"
@@ -511,4 +632,4 @@ class C08(Spec):
         return out
 
 
-SPECS = {"C01": C01, "C03": C03, "C04": C04, "C05": C05, "C14": C14, "C07": C07, "C18": C18, "C06": C06, "C08": C08, "C09": C09, "C10": C10}
+SPECS = {"C01": C01, "C03": C03, "C04": C04, "C05": C05, "C12": C12, "C13": C13, "C14": C14, "C07": C07, "C18": C18, "C06": C06, "C08": C08, "C09": C09, "C10": C10}
